@@ -113,9 +113,27 @@ fn recase(name: &str, z: u64) -> String {
     }
 }
 
+/// a variable / element that is no edge of the graph, written before an edge declaration: plain,
+/// initialised, of an enumeration, array or string type, or of a structure type with a structure
+/// initialiser (the visitor must keep its place in the enclosing declaration across all of them)
+fn decoration(z: u64, tag: &str, in_struct: bool) -> Option<String> {
+    match mix(z ^ 0xdec0) % 9 {
+        0 => Some(format!("dc{} : INT;\n", tag)),
+        1 => Some(format!("dc{} : INT := 3;\n", tag)),
+        2 => Some(format!("dc{} : c7_cfg := (c7_lim := 10);\n", tag)),
+        3 => Some(format!("dc{} : c7_en := c7_a;\n", tag)),
+        4 => Some(format!("dc{} : ARRAY[1..2] OF INT;\n", tag)),
+        // (a structure element cannot be a string with a length in this parser)
+        5 if !in_struct => Some(format!("dc{} : STRING[5];\n", tag)),
+        _ => None,
+    }
+}
+const DECORATION_TYPES: &str = "TYPE\nc7_cfg : STRUCT\nc7_lim : INT;\nEND_STRUCT;\nEND_TYPE\nTYPE\nc7_en : (c7_a, c7_b);\nEND_TYPE\n";
+
 /// node = FUNCTION_BLOCK, edge = an instance variable of the target type
 pub fn realise_fb(g: &Graph, salt: u64, arrays: bool) -> (String, Vec<(usize, usize)>) {
     let mut soft = vec![];
+    let mut decorated = false;
     let mut s = String::new();
     let mut z = salt;
     for &i in g.order(salt).iter() {
@@ -125,6 +143,10 @@ pub fn realise_fb(g: &Graph, salt: u64, arrays: bool) -> (String, Vec<(usize, us
             if g.adj[i][j] {
                 z = mix(z);
                 let kw = ["VAR", "VAR_INPUT", "VAR_OUTPUT"][(z % 3) as usize];
+                if let Some(d) = decoration(z ^ (i * 131 + j) as u64, &format!("{}_{}", i, j), false) {
+                    s.push_str(&format!("VAR\n{}END_VAR\n", d));
+                    decorated = true;
+                }
                 if arrays && (z >> 8) % 4 == 0 {
                     // an array of instances (whether that "contains an instance" is not settled: soft edge)
                     soft.push((i, j));
@@ -140,6 +162,9 @@ pub fn realise_fb(g: &Graph, salt: u64, arrays: bool) -> (String, Vec<(usize, us
         }
         s.push_str("END_FUNCTION_BLOCK\n");
     }
+    if decorated {
+        s.push_str(DECORATION_TYPES);
+    }
     (s, soft)
 }
 
@@ -147,6 +172,7 @@ pub fn realise_fb(g: &Graph, salt: u64, arrays: bool) -> (String, Vec<(usize, us
 /// enumeration) or one-element structure, out-degree >= 2 = structure with one element per edge
 pub fn realise_type(g: &Graph, salt: u64, arrays: bool) -> (String, Vec<(usize, usize)>) {
     let mut soft = vec![];
+    let mut decorated = false;
     // which nodes resolve to an enumeration through alias chains (only meaningful for acyclic parts)
     let outdeg: Vec<usize> = (0..g.n).map(|i| g.adj[i].iter().filter(|x| **x).count()).collect();
     let mut z = salt;
@@ -199,6 +225,10 @@ pub fn realise_type(g: &Graph, salt: u64, arrays: bool) -> (String, Vec<(usize, 
             s.push_str(&format!("t{} : STRUCT\n", i));
             for j in 0..g.n {
                 if g.adj[i][j] {
+                    if let Some(d) = decoration(salt ^ ((i * 16 + j) as u64 * 733), &format!("{}_{}", i, j), true) {
+                        s.push_str(&d);
+                        decorated = true;
+                    }
                     if arrays && mix(salt ^ ((i * 16 + j) as u64 * 131)) % 4 == 0 {
                         soft.push((i, j));
                         s.push_str(&format!("e{}_{} : ARRAY[0..1] OF {};\n", i, j, recase(&format!("t{}", j), salt ^ (i * 31 + j) as u64)));
@@ -211,6 +241,9 @@ pub fn realise_type(g: &Graph, salt: u64, arrays: bool) -> (String, Vec<(usize, 
         }
         s.push_str("END_TYPE\n");
     }
+    if decorated {
+        s.push_str(DECORATION_TYPES);
+    }
     (s, soft)
 }
 
@@ -220,6 +253,7 @@ pub fn realise_type(g: &Graph, salt: u64, arrays: bool) -> (String, Vec<(usize, 
 /// structures.
 pub fn realise_mixed(g: &Graph, salt: u64, arrays: bool) -> Option<(String, Vec<(usize, usize)>)> {
     let mut soft = vec![];
+    let mut decorated = false;
     if g.n < 2 {
         return None;
     }
@@ -244,6 +278,10 @@ pub fn realise_mixed(g: &Graph, salt: u64, arrays: bool) -> Option<(String, Vec<
             let mut any = false;
             for j in 0..g.n {
                 if g.adj[i][j] {
+                    if let Some(d) = decoration(salt ^ ((i * 16 + j) as u64 * 419), &format!("{}_{}", i, j), false) {
+                        s.push_str(&d);
+                        decorated = true;
+                    }
                     if arrays && mix(salt ^ ((i * 16 + j) as u64 * 977)) % 4 == 0 {
                         soft.push((i, j));
                         s.push_str(&format!("inst{}_{} : ARRAY[1..2] OF {};\n", i, j, recase(&name(j), salt ^ (i * 31 + j) as u64)));
@@ -262,6 +300,10 @@ pub fn realise_mixed(g: &Graph, salt: u64, arrays: bool) -> Option<(String, Vec<
             let mut any = false;
             for j in 0..g.n {
                 if g.adj[i][j] {
+                    if let Some(d) = decoration(salt ^ ((i * 16 + j) as u64 * 521), &format!("{}_{}", i, j), true) {
+                        s.push_str(&d);
+                        decorated = true;
+                    }
                     if arrays && mix(salt ^ ((i * 16 + j) as u64 * 613)) % 4 == 0 {
                         soft.push((i, j));
                         s.push_str(&format!("e{}_{} : ARRAY[0..1] OF {};\n", i, j, recase(&name(j), salt ^ (i * 31 + j) as u64)));
@@ -276,6 +318,9 @@ pub fn realise_mixed(g: &Graph, salt: u64, arrays: bool) -> Option<(String, Vec<
             }
             s.push_str("END_STRUCT;\nEND_TYPE\n");
         }
+    }
+    if decorated {
+        s.push_str(DECORATION_TYPES);
     }
     Some((s, soft))
 }
@@ -389,7 +434,7 @@ pub fn run(ctx: &Ctx) -> i32 {
         ctx.tier,
         ctx.seed,
         "exploration",
-        "directed graphs with self-loops: ALL graphs on 1..4 nodes (2+16+512+65536, exhaustive) and random graphs on 5..12 nodes (edge density drawn per case, DAG-biased half of the time with an optional single back edge), each realised as a function-block instance graph (VAR / VAR_INPUT / VAR_OUTPUT instances) as a type graph (alias / structure element) and as a mixed graph (every node a function block or a structure, edges = instance variables / structure elements; in a third of the graphs a quarter of the edges go through ARRAY OF and are soft: cycles only through them are not judged), declarations in a seed-derived order, every reference spelled in lower, UPPER or Capitalised case. Oracle: reference DFS cycle test (cross-checked by transitive closure for n<=4): cyclic => P0010 or P0013 reported; acyclic => neither. Non-trivial: >= 2 nodes and >= 1 edge; distinct by program text.",
+        "directed graphs with self-loops: ALL graphs on 1..4 nodes (2+16+512+65536, exhaustive) and random graphs on 5..12 nodes (edge density drawn per case, DAG-biased half of the time with an optional single back edge), each realised as a function-block instance graph (VAR / VAR_INPUT / VAR_OUTPUT instances) as a type graph (alias / structure element) and as a mixed graph (every node a function block or a structure, edges = instance variables / structure elements; in a third of the graphs a quarter of the edges go through ARRAY OF and are soft: cycles only through them are not judged), declarations in a seed-derived order, every reference spelled in lower, UPPER or Capitalised case, other variables / elements (plain, initialised, enumeration, array, string, structure with initialiser) declared before the edge declarations. Oracle: reference DFS cycle test (cross-checked by transitive closure for n<=4): cyclic => P0010 or P0013 reported; acyclic => neither. Non-trivial: >= 2 nodes and >= 1 edge; distinct by program text.",
     );
     // exhaustive part
     let mut items: Vec<(usize, u64)> = vec![];
